@@ -254,9 +254,15 @@ func c17Check(seq []int, mask uint, o optSet) (res c17Result) {
 	}
 	ecma := o.has('E')
 	order := o.has('O') || ecma
-	expNum, expName, modelOK := c17RefNumbers(seq, o.has('n'), order, ecma)
+	// option letter N: ExplicitCapture spelled as a leading inline (?n) instead of the compile option
+	co := optSet(strings.ReplaceAll(string(o), "N", ""))
+	pre, explicit := "", o.has('n')
+	if o.has('N') {
+		pre, explicit = "(?n)", true
+	}
+	expNum, expName, modelOK := c17RefNumbers(seq, explicit, order, ecma)
 
-	re, err := compileWith(src, o)
+	re, err := compileWith(pre+src, co)
 	res.evals++
 	if err != nil {
 		if c17MayReject(seq, o) {
@@ -378,7 +384,7 @@ func c17Check(seq []int, mask uint, o optSet) (res c17Result) {
 	for i := range seq {
 		slotOf[i] = -1
 		g := c17Menu[seq[i]]
-		isCap := g.cls == c17Named || g.cls == c17Explicit || (g.cls == c17Unnamed && !o.has('n'))
+		isCap := g.cls == c17Named || g.cls == c17Explicit || (g.cls == c17Unnamed && !explicit)
 		if isCap {
 			capturing++
 		}
@@ -499,7 +505,7 @@ func c17Check(seq []int, mask uint, o optSet) (res c17Result) {
 			in += f.text
 		}
 		f := fs[0]
-		re2, err := compileWith(p2, o)
+		re2, err := compileWith(pre+p2, co)
 		res.evals++
 		if err != nil {
 			if report {
@@ -623,7 +629,7 @@ func runC17(c *Ctx) {
 	}
 	c.Rule = "family GROUPS: EVERY sequence of 1.." + strconv.Itoa(maxK) + " groups, each drawn from the menu {(x) (?:x) (?<n>x) (?'m'x) (?<w2>x) (?<1>x) (?<2>x) (?<5>x) (?<10>x) (?'7'x); under RE2 also (?P<n>x)} " +
 		"(repetition allowed, so duplicate names and duplicate explicit numbers occur), laid out as a top-level sequence of right-nested chains (nesting mask: group i contains group i+1 as its last item; all 2^(k-1) masks below the largest k; " +
-		"at the largest k (4 quick, 5 thorough) sequential + every single nested pair + the full chain), group i capturing its own letter, x option sets {none, n, RE2, RE2+n, MaintainCaptureOrder, O+n, RE2+O, ECMAScript, E+n}. " +
+		"at the largest k (4 quick, 5 thorough) sequential + every single nested pair + the full chain), group i capturing its own letter, x option sets {none, n, N = ExplicitCapture spelled as a leading inline (?n), O+N, RE2, RE2+n, MaintainCaptureOrder, O+n, RE2+O, ECMAScript, E+n}. " +
 		"One match of the witness abcde[:k] shows which slot each syntactic group received (capture spans are pairwise distinct). Oracle (1) an independent reference numbering (unnamed by '(' order, explicit numbers keep their number, " +
 		"named afterwards in order of first appearance skipping taken numbers; pure pattern order under MaintainCaptureOrder/ECMAScript; ExplicitCapture removes unnamed; decimal default names, none in ECMAScript) predicts numbers, names and the capture list of every number; " +
 		"it is NOT applied where the documented rule is silent (explicit numbers under pattern order, non-ECMAScript syntax under ECMAScript). Oracle (2), always: names/numbers lists have equal length without duplicates; GroupNameFromNumber/GroupNumberFromName are inverse on listed " +
@@ -635,7 +641,7 @@ func runC17(c *Ctx) {
 	c.Assume("RE2 mode is documented not to change numbering, so the default (.NET) rule is the reference there")
 	c.Assume("numeric \\k<N> and $0 are not exercised under ECMAScript (not ECMAScript syntax)")
 
-	optSets := []optSet{"", "n", "2", "2n", "O", "On", "2O", "E", "En"}
+	optSets := []optSet{"", "n", "N", "2", "2n", "O", "On", "ON", "2O", "E", "En"}
 	// a few members of the enumeration, written out
 	for _, sm := range []struct {
 		kinds []string
